@@ -1,5 +1,7 @@
 """Registry: properties -> units (verifier invocations) -> harnesses -> obligations."""
-K = '/verif/kani/'
+import os as _os
+_V = _os.path.dirname(_os.path.dirname(_os.path.abspath(__file__)))
+K = _V + '/kani/'
 # -Z restrict-vtable: a `dyn Trait` call may only resolve to implementations of that trait (without it
 # CBMC's function-pointer removal lets a `dyn Fn(&T)` call reach any two-pointer-argument function,
 # e.g. every Debug::fmt, and explores core::fmt - the dominant cost in the first measurements)
@@ -256,7 +258,7 @@ obl('C18.FLIP-BEFORE-WAIT', FH + 'HalfLock::write_barrier', 'flip precedes the w
 obl('C18.QUIESCENT', FH + 'HalfLock::write_barrier', 'counters 0 and no interference: returns after one pass, no yield/spin (complete, unwinding assertions)')
 obl('C18.BARRIER-BOUNDED', FH + 'HalfLock::write_barrier, WriteGuard::store', 'terminates within K+2 passes when at most K loads answer non-zero', kind='bounded(K=3 non-zero answers; step proved unbounded by C18.STICKY)')
 obl('C18.POISON-OK', FH + 'HalfLock::write', 'returns a working guard when the mutex is poisoned (native stand-in: Kani has no unwinding)', kind='bounded(native execution; the obligation has no input domain)')
-UNITS['native_half_lock'] = dict(name='half_lock_poison', engine='static', module='native_unit', entry='run_native', source='/verif/native/half_lock_poison.rs')
+UNITS['native_half_lock'] = dict(name='half_lock_poison', engine='static', module='native_unit', entry='run_native', source=_V + '/native/half_lock_poison.rs')
 obl('C18.MUTEX-HELD', FH + 'HalfLock::write', 'mutex held while the guard lives')
 obl('C18.MUTEX-RELEASED', FH + 'WriteGuard drop glue', 'mutex released on guard drop')
 PROPS['C01'] = dict(level='proof', units=['half_lock', 'registry'], trusted=L('A1', 'A2', 'A7', 'A8', 'A9', 'A10'),
@@ -359,7 +361,7 @@ obl('C12.CTOR-CLEAN', FB + 'SignalDelivery::with_pipe', 'first refused signal =>
 obl('C12.SURVIVES-PANIC', FB + 'Handle::add_signal', 'after an addition rejected by panic (9 representative inputs): later add_signal Ok, re-add no-op, watched signals still delivered', kind='bounded(native execution, 9 inputs: -1, MIN, 128, MAX, KILL, STOP, ILL, FPE, SEGV)', also=['C14'])
 obl('C12.DROP-NO-PANIC', FB + 'DeliveryState::drop', 'drop after a rejected addition does not panic, removes every registration and closes the pipe', kind='bounded(native execution, same 9 inputs)', also=['C14'])
 obl('C12.RETRY-NATIVE', FB + 'Handle::add_signal + WithRawSiginfo::init', 'real OS refusal (signal 100) twice in a row returns Err twice', kind='bounded(native execution, 1 input)')
-UNITS['native_c12'] = dict(name='c12_survive', engine='static', module='native_unit', entry='run_native', source='/verif/native/c12_survive.rs',
+UNITS['native_c12'] = dict(name='c12_survive', engine='static', module='native_unit', entry='run_native', source=_V + '/native/c12_survive.rs',
                            deps='libc = "0.2"\nsignal-hook = { path = ".." }\n')
 PROPS['C12'] = dict(level='other', units=['backend_c12', 'backend_small_c12', 'native_c12'], trusted=_TI + ['Kani cannot unwind: state after a caught panic is decided by native execution on 9 representative rejected inputs (bounded), not proved for all c_int'],
     technique='function contracts on add_signal/with_pipe/DeliveryState::drop (Kani) + native execution stand-in for post-panic state',
@@ -490,17 +492,17 @@ PROPS['C09']['units'] = ['backend_small', 'backend', 'itermod']
 PROPS['C11']['trusted'] = PROPS['C11']['trusted'] + ['SignalsInfo::wait / Forever::next are four-arm matches over the proved poll_pending / poll_signal with the proved has_signals as callback; that composition is by reading']
 PROPS['C09']['trusted'] = PROPS['C09']['trusted'] + ['SignalsInfo::wait / Forever::next compose poll_pending / poll_signal / has_signals by a four-arm match (by reading)']
 
-UNITS['lemma_rcu'] = dict(name='lemma_rcu', engine='verus', module='verus_unit', entry='run_lemma', source='/verif/verus/l_rcu.rs', obligations=['C01.L-RCU'], min_verified=5)
+UNITS['lemma_rcu'] = dict(name='lemma_rcu', engine='verus', module='verus_unit', entry='run_lemma', source=_V + '/verus/l_rcu.rs', obligations=['C01.L-RCU'], min_verified=5)
 obl('C01.L-RCU', 'composition lemma over C01.R-ORDER / R-SLOT / R-DEC / S-ORDER / W-ZERO / S-FREE-ONCE', 'transition system whose steps are those trace contracts (any number of readers, any slot choice, SC interleaving, counter abstracted by the set of announced readers): in every reachable state no guard refers to a released snapshot and the current pointer is not released (inductive invariant, machine-checked)')
 PROPS['C01']['units'] = ['half_lock', 'half_lock_priv', 'registry', 'lemma_rcu']
 PROPS['C01']['trusted'] = L('A1', 'A2', 'A7', 'A9', 'A10') + ['the lemma L-RCU is machine-checked (Verus) at the level of the contracts; that the step relations of the lemma are exactly the contracts Kani proves is by reading (A8 narrowed to this link)', 'the reader counter is abstracted by the set of announced readers (inc/dec pairing proved: C01.R-SLOT, C01.R-DEC)']
 
-UNITS['lemma_pipe'] = dict(name='lemma_pipe', engine='verus', module='verus_unit', entry='run_lemma', source='/verif/verus/l_pipe.rs', obligations=['C09.L-PIPE'], min_verified=5)
+UNITS['lemma_pipe'] = dict(name='lemma_pipe', engine='verus', module='verus_unit', entry='run_lemma', source=_V + '/verus/l_pipe.rs', obligations=['C09.L-PIPE'], min_verified=5)
 obl('C09.L-PIPE', 'composition lemma over C09.STORE-THEN-WAKE / DRAIN-THEN-SCAN / NO-DRAIN-AFTER-SCAN / SCAN-ALL / C10.CLEAR-ATOMIC / C09.HAS-SIGNALS', 'transition system of any number of deliveries and one consumer (blocking read, drain, scan): the consumer is never blocked while a slot is marked unless a byte is in the pipe or the marking delivery has not written its byte yet (inductive invariant, machine-checked)')
 PROPS['C09']['units'] = ['backend_small', 'backend', 'itermod', 'lemma_pipe']
 PROPS['C09']['trusted'] = [t for t in PROPS['C09']['trusted'] if 'L-PIPE' not in t] + ['the safety half of the property (never parked with an unreported signal and nothing outstanding) is the machine-checked lemma L-PIPE over the proved ordering contracts; that its steps are those contracts is by reading; "obtains it at least once" additionally needs fairness of the consumer loop (not decidable here)']
 
-UNITS['lemma_fifo'] = dict(name='lemma_fifo', engine='verus', module='verus_unit', entry='run_lemma', source='/verif/verus/l_fifo.rs', obligations=['C06.L-FIFO'], min_verified=5)
+UNITS['lemma_fifo'] = dict(name='lemma_fifo', engine='verus', module='verus_unit', entry='run_lemma', source=_V + '/verus/l_fifo.rs', obligations=['C06.L-FIFO'], min_verified=5)
 obl('C06.L-FIFO', 'composition lemma over C06.ATOMIC / C06.OWN / C06.G-INV / C07.OWN-CELL / C07.EMPTY-MEANS-NONE', 'transition system of any number of senders/receivers whose steps are the successful CASes and owned cell accesses: received ++ still-queued == sent, in the order of the linearization points (push to / pop from `full`); a send finds no free index only if all five are queued or in flight (inductive invariant, machine-checked)')
 PROPS['C06']['units'] = ['channel', 'channel_priv', 'lemma_fifo']
 PROPS['C06']['trusted'] = L('A1', 'A7', 'A10') + ['linearizability: the lemma L-FIFO is machine-checked (Verus) over the step contracts; that its steps are exactly those contracts is by reading (A8 narrowed to this link)']
